@@ -1557,8 +1557,9 @@ class Interp:
         xr = None
         if name is not None:
             xr = st.rng.get(name) or [(0, (1 << 64) - 1)]
-            # interval reasoning on the switch needs d == sym >> shift, i.e. no symbol bits above the tested field
-            if shift is None or shift < 0 or (shift + width < 64 and max(y for _, y in xr) >= (1 << (shift + width))):
+            # interval reasoning on the switch needs d == sym >> shift: every bit of d must be the symbol's bit there
+            full = self.reduce_bits(st, BV.sym(64, name)).bits if shift is not None and shift >= 0 else None
+            if full is None or not all(d.bits[i] == (full[shift + i] if shift + i < 64 else 0) for i in range(d.w)):
                 name = None
         taken = []
         for val, tgt in targets:
